@@ -404,6 +404,9 @@ func (x *g) genType(depth int, self string) *spec.Type {
 			if t.Kind == "result" && x.o.Profile != "views" && x.o.Profile != "naming" {
 				continue
 			}
+			if t.ErrorOnly {
+				continue
+			}
 			cands = append(cands, t)
 		}
 		if len(cands) == 0 {
